@@ -411,3 +411,8 @@ Ltac simp_ps_in H :=
   unfold consume_term, set_pos, set_modes, set_stacks, set_ctx in H;
   cbn [ps_cursors ps_values ps_sp ps_it ps_end ps_term ps_rec ps_cons ps_ctx] in H;
   rewrite ?clr_cursors, ?clr_values, ?clr_sp, ?clr_it, ?clr_end, ?clr_term, ?clr_rec, ?clr_ctx, ?clr_cons in H.
+
+Arguments plain_ev {V C}. Arguments final_res_ok {V C}. Arguments plain_lc {V C}.
+Arguments gct_term {V C g opts buf lexer s s1 t ev}.
+Arguments gct_stacks {V C g opts buf lexer s s1 ot ev}.
+Arguments do_reduce_inl {V C g tbl cap rule_f s r s3 ev}.
